@@ -180,6 +180,18 @@ class HiFiber:
 
             elif isinstance(node, OtherNode):
                 if node.get_type() == "Body":
+                    # The update reads the values of the tensors, so every
+                    # rank of every tensor must have been reached by now
+                    for tensor in self.program.get_equation().get_tensors():
+                        rank = tensor.peek()
+                        if rank is not None:
+                            raise ValueError(
+                                "Rank " +
+                                rank.upper() +
+                                " of tensor " +
+                                tensor.root_name() +
+                                " is not reached by the loop nest")
+
                     code.add(self.eqn.make_update())
                     code.add(self.graphics.make_body())
 
